@@ -122,12 +122,22 @@ Fixpoint last_opt (s : bytes) : option N :=
   | _ :: r => last_opt r
   end.
 
+(* txt[bytes.LastIndexByte(txt, c)+1:]: what follows the last occurrence of c (all of txt when there is none) *)
+Fixpoint after_last (c : N) (s : bytes) : bytes :=
+  match s with
+  | [] => []
+  | x :: r => if mem r c then after_last c r else if x =? c then r else x :: r
+  end.
+
 (* renderer.Text(txt, inURL, isSet) *)
 Definition r_text (w : writer) (st : rstate) (ws : wst) (txt : bytes) (u isSet : bool) : rstate * wst * res :=
   let st := url_switch st u in
   if u then
     if isSet && mem txt 44 then
-      let st := mkR (inURL st) false (addAmp st) (remQ st) in
+      (* a new URL starts after the last comma:
+         r.query = bytes.ContainsAny(txt[bytes.LastIndexByte(txt, comma)+1:], ?#); r.addAmpersand = false; r.removeQuestionMark = false *)
+      let tail := after_last 44 txt in
+      let st := mkR (inURL st) (mem tail 63 || mem tail 35) false false in
       match wr w ws txt with
       | (ws', None) => (st, ws', ROk)
       | (ws', Some e) => (st, ws', RErr e)
